@@ -20,12 +20,13 @@ inductive IntK | int | int8 | int16 | int32 | int64 | uint | uint8 | uint16 | ui
 
 /-- Go types of the universe (`maybe t` = the interface `MaybeDef[t]`, `someDef t`/`noneDef` the concrete structs) -/
 inductive Ty
-  | bool | int (k : IntK) | f32 | f64 | string | struct | slice | map | func | chan
+  | bool | int (k : IntK) | f32 | f64 | c64 | c128 | string | struct | array | slice | map | func | chan | unsafePtr
   | ptr (t : Ty) | any | maybe (t : Ty) | someDef (t : Ty) | noneDef
   deriving DecidableEq, Repr
 
 inductive Kind
-  | invalid | bool | int (k : IntK) | f32 | f64 | string | struct | slice | map | func | chan | ptr | iface
+  | invalid | bool | int (k : IntK) | f32 | f64 | c64 | c128 | string | struct | array | slice | map | func | chan | unsafePtr
+  | ptr | iface
   deriving DecidableEq, Repr
 
 inductive SliceC | nil | empty | elems (k : Int)
@@ -36,6 +37,9 @@ inductive GoVal
   | bool (b : Bool)
   | int (k : IntK) (n : Int)
   | f32 (bits : String) | f64 (bits : String)     -- IEEE bit pattern, opaque here
+  | c64 (k : Int) | c128 (k : Int)        -- complex numbers, payload opaque
+  | array (k : Int)                       -- a `[2]int`
+  | unsafePtr (c : Option Int)            -- `unsafe.Pointer`, `none` = nil
   | str (hex : String)                    -- bytes, hex encoded
   | struct (k : Int)                      -- comparable struct with opaque payload
   | slice (c : SliceC) | map (c : Option Int) | func (c : Option Int) | chan (c : Option Int)   -- `none` = nil
@@ -53,6 +57,10 @@ def typeOf? : GoVal → Option Ty
   | .int k _ => some (.int k)
   | .f32 _ => some .f32
   | .f64 _ => some .f64
+  | .c64 _ => some .c64
+  | .c128 _ => some .c128
+  | .array _ => some .array
+  | .unsafePtr _ => some .unsafePtr
   | .str _ => some .string
   | .struct _ => some .struct
   | .slice _ => some .slice
@@ -69,6 +77,10 @@ def kindOf : GoVal → Kind
   | .int k _ => .int k
   | .f32 _ => .f32
   | .f64 _ => .f64
+  | .c64 _ => .c64
+  | .c128 _ => .c128
+  | .array _ => .array
+  | .unsafePtr _ => .unsafePtr
   | .str _ => .string
   | .struct _ => .struct
   | .slice _ => .slice
@@ -85,6 +97,10 @@ def zeroOf : Ty → GoVal
   | .int k => .int k 0
   | .f32 => .f32 "00000000"
   | .f64 => .f64 "0000000000000000"
+  | .c64 => .c64 0
+  | .c128 => .c128 0
+  | .array => .array 0
+  | .unsafePtr => .unsafePtr none
   | .string => .str ""
   | .struct => .struct 0
   | .slice => .slice .nil
@@ -120,13 +136,14 @@ def RV.isValid : RV → Bool
   | .zero => false
   | .val _ _ => true
 
-/-- `Value.IsNil`: panics unless the kind is chan, func, interface, map, pointer or slice -/
+/-- `Value.IsNil`: panics unless the kind is chan, func, interface, map, pointer, slice or unsafe pointer -/
 def RV.isNil : RV → R Bool
   | .zero => throw "reflect: call of reflect.Value.IsNil on zero Value"
   | .val (.slice c) _ => pure (c == .nil)
   | .val (.map c) _ => pure c.isNone
   | .val (.func c) _ => pure c.isNone
   | .val (.chan c) _ => pure c.isNone
+  | .val (.unsafePtr c) _ => pure c.isNone
   | .val (.ptr _ a) _ => pure a.isNone
   | .val _ _ => throw "reflect: call of reflect.Value.IsNil on a non-nillable Value"
 
@@ -393,6 +410,11 @@ def fmtV (h : Heap) : Nat → GoVal → Option String
   | _, .int _ n => some (hexOfAscii (toString n))
   | _, .f32 _ => Option.none
   | _, .f64 _ => Option.none
+  | _, .c64 _ => Option.none
+  | _, .c128 _ => Option.none
+  | _, .array k => some (hexOfAscii ("[" ++ toString k ++ " " ++ toString (k + 1) ++ "]"))
+  | _, .unsafePtr Option.none => some (hexOfAscii "<nil>")
+  | _, .unsafePtr (some _) => Option.none
   | _, .str hx => some hx
   | _, .struct k => some (hexOfAscii ("{" ++ toString k ++ "}"))
   | _, .slice .nil => some (hexOfAscii "[]")
@@ -409,6 +431,7 @@ def fmtV (h : Heap) : Nat → GoVal → Option String
     if d = 0 then
       match h[a]? with
       | some (.struct k) => some (hexOfAscii ("&{" ++ toString k ++ "}"))
+      | some (.array k) => some (hexOfAscii ("&[" ++ toString k ++ " " ++ toString (k + 1) ++ "]"))
       | some (.slice .nil) => some (hexOfAscii "&[]")
       | some (.slice .empty) => some (hexOfAscii "&[]")
       | some (.slice (.elems k)) => some (hexOfAscii ("&[" ++ toString k ++ " " ++ toString (k + 1) ++ "]"))
